@@ -56,6 +56,27 @@ func (c *Ctx) sinksOf(fn *ssa.Function) []nilSink {
 			}
 		case *ssa.MapUpdate:
 			out = append(out, nilSink{in, x.Map, "map write"})
+		case *ssa.MakeInterface:
+			// the typed-nil trap: a nil *T boxed into an interface is not == nil; a callee that guards itself with
+			// `if n == nil` and then switches on the type dereferences the nil pointer
+			if _, isPtr := x.X.Type().Underlying().(*types.Pointer); !isPtr {
+				return
+			}
+			for _, r := range *x.Referrers() {
+				ci, isCI := r.(ssa.CallInstruction)
+				if !isCI {
+					continue
+				}
+				cal := ci.Common().StaticCallee()
+				if cal == nil || !c.isRepoFn(cal) || ci.Common().IsInvoke() {
+					continue
+				}
+				for i, a := range ci.Common().Args {
+					if a == ssa.Value(x) && i < len(cal.Params) && c.usesBeyondNilTest(cal, i) {
+						out = append(out, nilSink{in, x.X, fmt.Sprintf("boxed as interface argument %s of %s (a typed nil passes its == nil test)", cal.Params[i].Name(), c.FnName(cal))})
+					}
+				}
+			}
 		case ssa.CallInstruction:
 			com := x.Common()
 			if com.IsInvoke() {
@@ -258,6 +279,7 @@ type nilException struct {
 }
 
 var nilExceptions = []nilException{
+	{"yang.(*Modules).GetModule", "map result ms.Modules[·] → boxed", "the same lookup was found non-nil before Process on both paths (present at once, or tested again after Read); Read and Process only add to Modules.Modules (add is its only writer, nothing deletes from it)"},
 	{"", "result of yang.RootNode", "every node reachable through a module set is rooted at a *Module: users obtain nodes from Modules.Modules/SubModules, synthetic nodes (implicit cases, leaf-list leaves) copy a real Parent, and nothing of a rejected statement is registered (STATE.COMMIT; defect #7/#26 repaired by scratch-dictionary registration)"},
 	{"", "optional field Module.Modules", "Modules.add sets Module.Modules before it files the module, and only filed modules are reachable (see RootNode)"},
 	{"yang.ToEntry", "variable alloc:ms", "ms is RootNode(n).Modules: see the RootNode and Module.Modules exceptions"},
@@ -976,4 +998,73 @@ func (c *Ctx) initOnlyFuncs() map[*ssa.Function]bool {
 		}
 	}
 	return r
+}
+
+// usesBeyondNilTest: parameter i of fn (an interface) is type-switched / type-asserted to a pointer that is then
+// dereferenced, or has a method invoked on it, in fn itself.
+func (c *Ctx) usesBeyondNilTest(fn *ssa.Function, i int) bool {
+	if fn.Blocks == nil || i >= len(fn.Params) {
+		return false
+	}
+	p := fn.Params[i]
+	if !types.IsInterface(p.Type()) {
+		return false
+	}
+	uses := false
+	seen := map[ssa.Value]bool{}
+	var walk func(v ssa.Value)
+	walk = func(v ssa.Value) {
+		if seen[v] || uses {
+			return
+		}
+		seen[v] = true
+		refs := v.Referrers()
+		if refs == nil {
+			return
+		}
+		for _, r := range *refs {
+			// a dereference the callee makes only where it knows the pointer is not nil does not count
+			// (an explicit `v != nil` test only: a comma-ok assertion that succeeded says nothing about a typed nil)
+			if fa, isFA := r.(*ssa.FieldAddr); isFA {
+				excused := false
+				for _, g := range guardsAt(fa.Block()) {
+					if x, isEq, okn := nilTest(g.Cond); okn && x == v && isEq != g.Branch {
+						excused = true
+					}
+				}
+				if excused {
+					continue
+				}
+			}
+			switch x := r.(type) {
+			case *ssa.TypeAssert:
+				if _, isPtr := x.AssertedType.Underlying().(*types.Pointer); isPtr {
+					// the asserted pointer (or component #0 of the comma-ok form) is dereferenced?
+					walk(x)
+				}
+			case *ssa.Extract:
+				if x.Index == 0 {
+					walk(x)
+				}
+			case *ssa.FieldAddr:
+				uses = true
+			case *ssa.Store:
+				if a, isA := x.Addr.(*ssa.Alloc); isA && x.Val == v {
+					walk(a)
+				}
+			case *ssa.UnOp:
+				if x.Op == token.MUL {
+					if _, isA := x.X.(*ssa.Alloc); isA {
+						walk(x)
+					} else {
+						uses = true
+					}
+				}
+			case *ssa.Phi:
+				walk(x)
+			}
+		}
+	}
+	walk(p)
+	return uses
 }
